@@ -28,9 +28,15 @@ class Expect:
 
 
 class MuxModel:
-    def __init__(self, dw, regs):
+    def __init__(self, dw, regs, conservative=False):
+        """``conservative``: for bus activity that is not known to follow the CSR protocol register by
+        register (e.g. produced by a Wishbone bridge): a register's captured snapshot is forgotten as
+        soon as another register's first chunk is read (their shadow chunks may be shared), and a new
+        write transaction starts whenever the written register changes."""
         self.dw = dw
         self.regs = regs
+        self.conservative = conservative
+        self.last_w = None
         self.snap = [None] * len(regs)          # value captured at the last first-chunk read
         self.wbuf = [dict() for _ in regs]      # chunk -> value written in the current transaction
         self.txn = [None] * len(regs)
@@ -68,13 +74,19 @@ class MuxModel:
             if r_stb and r.readable:
                 if c == 0:
                     e.r_stb[i] = True
+                    if self.conservative:
+                        self.snap = [None] * len(self.regs)
                     self.snap[i] = values[i] & ((1 << r.width) - 1)
                 if self.snap[i] is None:
                     nxt_r = (0, False)
                 else:
                     nxt_r = ((self.snap[i] >> (c * dw)) & ((1 << dw) - 1), True)
             if w_stb and r.writable:
-                if self.txn[i] != txn or txn is None:
+                if self.conservative:
+                    if self.last_w != i:
+                        self.wbuf[i] = {}
+                    self.last_w = i
+                elif self.txn[i] != txn or txn is None:
                     if txn is not None:
                         self.wbuf[i] = {}
                     self.txn[i] = txn
